@@ -9,6 +9,7 @@ Inductive ckind :=
 | KEmpty            (* zero-length datagram *)
 | KUnsplitLen       (* does not split into records: length / framing *)
 | KUnsplitOther     (* does not split into records: record type of the first byte, unified-header form, CID bit *)
+| KOversized        (* longer than the connection's read buffer, does not split into records (listener leg) *)
 | KBadHeader        (* record header does not decode (version) *)
 | KForged           (* protected record that does not authenticate *)
 | KUndecHs          (* unprotected handshake record whose fragments do not decode: FragmentBuffer.Push fails *)
@@ -38,6 +39,7 @@ Definition dgram_of (k : ckind) : dgram :=
   | KEmpty => DEmpty
   | KUnsplitLen => DLenErr
   | KUnsplitOther => DOtherErr
+  | KOversized => DOversized
   | KBadHeader => DRecs [RBadHeader]
   | KForged => DRecs [RWire {| w_ctype := 23; w_epoch := 1; w_seq := 9000; w_cid := []; w_auth := None; w_clear := CBad |}]
   | KUndecHs => DRecs [RWire (mk0 22 9000 (CHs false false))]
